@@ -171,6 +171,15 @@ def g_c13(tier, seed):
                 samples=[dict(obj="AdditiveCondition(shape (), cond ())", bad="condition.shape=(1,)")], failures=fails[:5], errors=[])
 
 
+@grid("C15")
+def g_c15(tier, seed):
+    cnt = []
+    fails = rt.rt_c15_grid(tier, count=cnt)
+    return dict(evaluations=cnt[0] if cnt else 0, distinct_nontrivial=cnt[0] if cnt else 0,
+                rule="index-tagged rows: real train_val_split for n in 2..25 (+31,40,47,60; thorough: 2..60) x val_prop grid, real get_batches for batch sizes {1,2,3,n-1,n,n+5}, real fit_to_data with a recording loss (ordered host callback, step() wrapped to tell gradient steps from validation calls) with and without condition, run twice for determinism",
+                samples=[dict(n=15, val_prop=0.1)], failures=fails[:5], errors=[])
+
+
 def main():
     if len(sys.argv) == 3 and sys.argv[1] == "--c10-batch":
         print(json.dumps(rt.rt_bisection_batch(json.loads(sys.argv[2]))))
